@@ -235,8 +235,8 @@ def run(ck):
                                  % (nm, errs[nm + "_polar"]), rep_doc, key="c01-float-polar-" + nm)
         # (b') the same comparison with the large-omega2 algorithm forced (large_om2 = 0) and inequivalent exchange classes
         # given different rates: for ordinary energies both algorithms must reproduce the exact chain
-        # (multi-Wyckoff crystals are the C08 known finding c08-largeom2-multiwyckoff and are not compared here)
-        if len(sl) == 1:
+        # (multi-Wyckoff crystals are the C08 known finding c08-largeom2-exchange-mixes-stars and are not compared here)
+        if not vm.exchange_mixes_stars(d):
             th = vm.random_thermo(d, rng, interact=True, site_energies=True)
             th["preT2"] = th["preT2"] * np.array([10.0 ** rng.uniform(0, 1.5) for _ in th["preT2"]])
             args = d.preene2betafree(1.0, **th)
